@@ -41,6 +41,8 @@ def check_side(chk, fn, own, other, data_dir):
     cur_var = None
     if nxt_init is not None and nxt_init.k == 'BinaryOperator' and nxt_init.o == '%' and is_name(nxt_init.c[1], 'length'):
         a = strip_casts(nxt_init.c[0])
+        if a.k == 'BinaryOperator' and a.o == '+' and cval(a.c[0]) == 1 and cval(a.c[1]) != 1:
+            a.c[0], a.c[1] = a.c[1], a.c[0]               # `1 + index` reads `index + 1`
         if a.k == 'BinaryOperator' and a.o == '+' and cval(a.c[1]) == 1 and strip_casts(a.c[0]).k in REF_KINDS:
             cur_var = strip_casts(a.c[0]).n
             ci = local_init(fn, cur_var)
